@@ -45,26 +45,28 @@ type CallSite struct { // "at call <callee>: assert <cond>"
 }
 
 type FuncContract struct {
-	Pkg        string // package import path
-	Key        string // function key within package
-	File       string
-	Props      []string
-	Requires   []*Clause
-	Ensures    []*Clause
-	Loops      map[int]*LoopContract
-	CallSites  []*CallSite
-	Guarded    []*Guarded // heap classes that may only be accessed while a lock is held
-	AtReturn   []*Clause  // "at return: assert c": checked at every return, before deferred calls run
-	Assigns    []string   // nil = unspecified (anything); ["nothing"]; or list of lvalue patterns
-	HasAssign  bool
-	NoPanic    bool
-	Trusted    bool // assumed, not verified (external dependency or declared so)
-	Pure       bool // no heap effects, result deterministic function of args+heap
-	Functional bool // results are a (named, uninterpreted) function of the argument values
-	Safety     bool // emit automatic safety obligations (default true)
-	Inline     bool // force inlining at call sites even though a contract exists
-	Opts       map[string]string
-	Bound      bool
+	Pkg            string // package import path
+	Key            string // function key within package
+	File           string
+	Props          []string
+	Requires       []*Clause
+	Ensures        []*Clause
+	Loops          map[int]*LoopContract
+	CallSites      []*CallSite
+	Guarded        []*Guarded // heap classes that may only be accessed while a lock is held
+	AtReturn       []*Clause  // "at return: assert c": checked at every return, before deferred calls run
+	Assigns        []string   // nil = unspecified (anything); ["nothing"]; or list of lvalue patterns
+	HasAssign      bool
+	NoPanic        bool
+	Trusted        bool // assumed, not verified (external dependency or declared so)
+	Pure           bool // no heap effects, result deterministic function of args+heap
+	Functional     bool // results are a (named, uninterpreted) function of the argument values
+	Safety         bool // emit automatic safety obligations (default true)
+	Inline         bool // force inlining at call sites even though a contract exists
+	OrderFree      bool // every slice appended to inside a range-over-map loop is sorted afterwards
+	OrderFreeProps []string
+	Opts           map[string]string
+	Bound          bool
 }
 
 type SpecFunc struct {
@@ -83,7 +85,7 @@ type Contracts struct {
 
 func ckey(pkg, key string) string { return pkg + "::" + key }
 
-var clauseRe = regexp.MustCompile(`^(requires|ensures|panics|assigns|nopanic|props|loop|at|trusted|pure|functional|nosafety|inline|opt|guarded)\b(\[[A-Z0-9, ]+\])?\s*(.*)$`)
+var clauseRe = regexp.MustCompile(`^(requires|ensures|panics|assigns|nopanic|props|loop|at|trusted|pure|functional|nosafety|inline|opt|guarded|orderfree)\b(\[[A-Z0-9, ]+\])?\s*(.*)$`)
 
 func LoadContracts(repo string, pkgDirs map[string]string) (*Contracts, error) {
 	cs := &Contracts{Funcs: map[string]*FuncContract{}, Specs: map[string]*SpecFunc{}}
@@ -194,6 +196,9 @@ func (cs *Contracts) loadFile(pkgPath, file string) error {
 			case "functional":
 				fc.Functional = true
 				fc.Pure = true
+			case "orderfree":
+				fc.OrderFree = true
+				fc.OrderFreeProps = props
 			case "nosafety":
 				fc.Safety = false
 			case "inline":
